@@ -111,7 +111,7 @@ bool g_l1_hit; struct vstr g_l1_val; uint64_t g_l1_gen; int g_l1_fetch_calls, g_
 static bool l1_fetch(struct vstr const *key, struct vstr *a, struct strset *tags, time_t *timeout, uint64_t *gen)
 { g_l1_fetch_calls++; if(!g_l1_hit) return 0; *a = g_l1_val; *gen = g_l1_gen; return 1; }
 static void l1_remove(struct vstr const *key) { g_l1_removed++; }
-static void l1_store(struct vstr const *key, struct vstr *a, struct strset *tags, time_t timeout, uint64_t *gen) { g_l1_stored++; g_l1_store_gen = *gen; g_l1_store_valp = a->p; }
+bool g_l1_store_gen_null;   /* l1_store is a contract stub (functions list) so that the default argument gen=0 of base_cache::store is padded by rule R5 */
 
 /* on_header_in: std::vector<char>::clear/resize, the socket read into the whole vector, the direct continuation */
 int g_rd_calls, g_cont_calls, g_err_calls; size_t g_rd_n;
@@ -274,18 +274,23 @@ __CPROVER_ensures((__CPROVER_return_value == tcp_cache_found && g_tr_count > g_t
 /* anything else leaves the value and generation of the caller alone */
 __CPROVER_ensures(__CPROVER_return_value != tcp_cache_found ==> (a->p == __CPROVER_old(a->p) && a->n == __CPROVER_old(a->n) && *generation == __CPROVER_old(*generation)))
 '''),
+    dict(stub=True, cname='l1_store', sig='void l1_store(struct vstr const *key, struct vstr *a, struct strset *tags, time_t timeout, uint64_t *gen)', defaults=['0'],
+         contract='/* base_cache::store(key,a,triggers,timeout,uint64_t const *gen=0) of the L1 cache: recorder; with gen==0 the L1 cache stamps the entry with its OWN counter */\n'
+                  '__CPROVER_requires(__CPROVER_r_ok(a, sizeof(*a)) && (gen == 0 || __CPROVER_r_ok(gen, sizeof(*gen))))\n'
+                  '__CPROVER_assigns(g_l1_stored, g_l1_store_gen, g_l1_store_valp, g_l1_store_gen_null)\n'
+                  '__CPROVER_ensures(g_l1_stored == __CPROVER_old(g_l1_stored) + 1 && g_l1_store_gen_null == (gen == 0) && (gen != 0 ==> g_l1_store_gen == *gen) && g_l1_store_valp == a->p)'),
     # ---------------- node: L1 in front of the server
     dict(cname='oip_fetch', file=OIP, locate=r'bool fetch\(\s*std::string const &key,\s*std::string \*a,std::set<std::string> \*tags,\s*time_t \*timeout_out,\s*uint64_t \*gen\)',
          sig='bool oip_fetch(struct oip *self, struct vstr const *key, struct vstr *a, struct strset *tags, time_t *timeout_out, uint64_t *gen)',
          rewrites=[(r'std::string buffer;', 'struct vstr buffer = {0, 0, 0};', 1), (r'std::set<std::string> tmp_triggers;', 'struct strset tmp_triggers = {0, 0, 0, 0};', 1),
                    (r'l1_\.get\(\)', 'self->has_l1', 1), (r'tcp\(\)->fetch\(key,\*a,tags,\*timeout_out,\*gen,', 'tcp_fetch(key, a, tags, timeout_out, gen, ', 3),
                    (r'l1_->fetch\(key,a,tags,timeout_out,gen\)', 'l1_fetch(key, a, tags, timeout_out, gen)', 1), (r'l1_->remove\(key\)', 'l1_remove(key)', 0),
-                   (r'l1_->store\(key,\*a,\*tags,\*timeout_out,gen\)', 'l1_store(key, a, tags, *timeout_out, gen)', 0)],
+                   (r'l1_->store\(key,\*a,\*tags,\*timeout_out', 'l1_store(key, a, tags, *timeout_out', 0)],
          contract=r'''
 __CPROVER_requires(__CPROVER_r_ok(self, sizeof(*self)) && (a == 0 || __CPROVER_rw_ok(a, sizeof(*a))) && (tags == 0 || __CPROVER_rw_ok(tags, sizeof(*tags))) &&
                    (timeout_out == 0 || __CPROVER_rw_ok(timeout_out, sizeof(*timeout_out))) && (gen == 0 || __CPROVER_rw_ok(gen, sizeof(*gen))) &&
                    g_tcp_calls == 0 && g_l1_fetch_calls == 0 && g_l1_removed == 0 && g_l1_stored == 0)
-__CPROVER_assigns(g_tcp_calls, g_tcp_flag, g_tcp_gen_in, g_l1_fetch_calls, g_l1_removed, g_l1_stored, g_l1_store_gen, g_l1_store_valp;
+__CPROVER_assigns(g_tcp_calls, g_tcp_flag, g_tcp_gen_in, g_l1_fetch_calls, g_l1_removed, g_l1_stored, g_l1_store_gen, g_l1_store_valp, g_l1_store_gen_null;
                   a != 0: *a; tags != 0: *tags; timeout_out != 0: *timeout_out; gen != 0: *gen)
 /* the server is consulted exactly once on EVERY fetch, L1 hit or not */
 __CPROVER_ensures(g_tcp_calls == 1 && g_l1_fetch_calls == (self->has_l1 ? 1 : 0))
@@ -299,7 +304,7 @@ __CPROVER_ensures((a != 0 && g_tcp_res == tcp_cache_up_to_date) ==> a->p == g_l1
 __CPROVER_ensures((gen != 0 && g_tcp_res == tcp_cache_found) ==> *gen == g_srv_gen)
 /* L1 maintenance: refreshed with the value and generation of the server, dropped when the server no longer has the key, untouched when confirmed */
 __CPROVER_ensures(self->has_l1 ==> (g_l1_stored == (g_tcp_res == tcp_cache_found ? 1 : 0) && g_l1_removed == ((g_tcp_res == tcp_cache_not_found && g_l1_hit) ? 1 : 0)))
-__CPROVER_ensures((self->has_l1 && g_tcp_res == tcp_cache_found) ==> (g_l1_store_gen == g_srv_gen && g_l1_store_valp == g_srv_val.p))
+__CPROVER_ensures((self->has_l1 && g_tcp_res == tcp_cache_found) ==> (!g_l1_store_gen_null && g_l1_store_gen == g_srv_gen && g_l1_store_valp == g_srv_val.p))
 __CPROVER_ensures(!self->has_l1 ==> (g_l1_stored == 0 && g_l1_removed == 0))
 '''),
     # ---------------- server: header received -> payload buffer sized to the announced length
@@ -323,34 +328,34 @@ SETS = r'''
 '''
 jobs = [
     dict(name='to_time_t', props=P, enforce='to_time_t', harness='int64_t v; time_t r = to_time_t(v); VERIF_REACH;'),
-    dict(name='connector_hash', props=P, replay='c10:loopback', replay_link=LINK, replay_exhaustive='a real server on 127.0.0.1, three real nodes (two with L1), a 600-step pseudo-random store/fetch/rise/clear history with binary and empty values against a reference map; 2000 hashed keys', enforce='connector_hash', harness=r'''
+    dict(name='connector_hash', props=P, replay='c10:loopback', replay_link=LINK, replay_exhaustive='two real servers on 127.0.0.1, three real nodes (two with L1), a 1500-step pseudo-random store/fetch/rise/clear history with binary and empty values against a reference map; 2000 hashed keys', enforce='connector_hash', harness=r'''
     SYM_BUF(char, kb, kn1, BUF_CAP); __CPROVER_assume(kn1 >= 1 && kb[kn1 - 1] == 0); struct vstr key = { kb, kn1 - 1, 0 }; int conns;
     unsigned r = connector_hash(conns, &key); VERIF_REACH;'''),
-    dict(name='srv_load_triggers', props=P, replay='c10:loopback', replay_link=LINK, replay_exhaustive='a real server on 127.0.0.1, three real nodes (two with L1), a 600-step pseudo-random store/fetch/rise/clear history with binary and empty values against a reference map; 2000 hashed keys', enforce='srv_load_triggers', replace=['verif_strlen'], checks=NO_UWRAP, harness=r'''
+    dict(name='srv_load_triggers', props=P, replay='c10:loopback', replay_link=LINK, replay_exhaustive='two real servers on 127.0.0.1, three real nodes (two with L1), a 1500-step pseudo-random store/fetch/rise/clear history with binary and empty values against a reference map; 2000 hashed keys', enforce='srv_load_triggers', replace=['verif_strlen'], checks=NO_UWRAP, harness=r'''
     SYM_BUF(char, b, n1, BUF_CAP); size_t ti, sk; g_ti = ti; g_sk = sk; g_tr_count = 0; unsigned len;
     bool r = srv_load_triggers(b, len); VERIF_REACH;'''),
     dict(name='srv_store', props=P, enforce='srv_store', replace=['srv_load_triggers', 'to_time_t'], harness=r'''
     struct session s; SYM_BUF(char, b, n, BUF_CAP); s.in_p = b; s.in_n = n; size_t ti, sk, k; g_ti = ti; g_sk = sk; g_k = k; g_tr_count = 0; g_st_calls = 0;
     WIT(0, s.hin_.size); WIT(1, s.hin_.operations.store.key_len); WIT(2, s.hin_.operations.store.data_len); WIT(3, s.hin_.operations.store.triggers_len); WIT_BUF(0, b, n);
     srv_store(&s); VERIF_REACH;''', witness=dict(bufs=['msg'], vals=['size', 'key_len', 'data_len', 'triggers_len']), replay='c10:srv_store', replay_link=LINK),
-    dict(name='srv_fetch', props=P, replay='c10:loopback', replay_link=LINK, replay_exhaustive='a real server on 127.0.0.1, three real nodes (two with L1), a 600-step pseudo-random store/fetch/rise/clear history with binary and empty values against a reference map; 2000 hashed keys', enforce='srv_fetch', harness=SETS + r'''
+    dict(name='srv_fetch', props=P, replay='c10:loopback', replay_link=LINK, replay_exhaustive='two real servers on 127.0.0.1, three real nodes (two with L1), a 1500-step pseudo-random store/fetch/rise/clear history with binary and empty values against a reference map; 2000 hashed keys', enforce='srv_fetch', harness=SETS + r'''
     struct session s; SYM_BUF(char, b, n, BUF_CAP); s.in_p = b; s.in_n = n; size_t k, pos; g_k = k; g_pos = pos; g_cf_calls = 0; out_reset();
     SYM_BUF(char, vb, vn1, BUF_CAP); __CPROVER_assume(vn1 >= 1 && vb[vn1 - 1] == 0); g_cf_val.p = vb; g_cf_val.n = vn1 - 1; g_cf_val.src = 0;
     SYM_SET(g_cf_tags); int fnd; g_cf_found = fnd != 0; time_t to; g_cf_timeout = to; uint64_t gen; g_cf_gen = gen;
     srv_fetch(&s); VERIF_REACH;'''),
-    dict(name='cli_store', props=P, replay='c10:loopback', replay_link=LINK, replay_exhaustive='a real server on 127.0.0.1, three real nodes (two with L1), a 600-step pseudo-random store/fetch/rise/clear history with binary and empty values against a reference map; 2000 hashed keys', enforce='cli_store', harness=SETS + r'''
+    dict(name='cli_store', props=P, replay='c10:loopback', replay_link=LINK, replay_exhaustive='two real servers on 127.0.0.1, three real nodes (two with L1), a 1500-step pseudo-random store/fetch/rise/clear history with binary and empty values against a reference map; 2000 hashed keys', enforce='cli_store', harness=SETS + r'''
     SYM_BUF(char, kb, kn1, BUF_CAP); __CPROVER_assume(kn1 >= 1 && kb[kn1 - 1] == 0); struct vstr key = { kb, kn1 - 1, 0 };
     SYM_BUF(char, vb, vn1, BUF_CAP); __CPROVER_assume(vn1 >= 1 && vb[vn1 - 1] == 0); struct vstr val = { vb, vn1 - 1, 0 };
     struct strset tr; SYM_SET(tr);
     size_t pos; g_pos = pos; g_tx_calls = 0; time_t to;
     cli_store(&key, &val, &tr, to); VERIF_REACH;'''),
-    dict(name='cli_fetch', props=P, replay='c10:loopback', replay_link=LINK, replay_exhaustive='a real server on 127.0.0.1, three real nodes (two with L1), a 600-step pseudo-random store/fetch/rise/clear history with binary and empty values against a reference map; 2000 hashed keys', enforce='cli_fetch', replace=['verif_strlen', 'to_time_t'], checks=NO_UWRAP, harness=r'''
+    dict(name='cli_fetch', props=P, replay='c10:loopback', replay_link=LINK, replay_exhaustive='two real servers on 127.0.0.1, three real nodes (two with L1), a 1500-step pseudo-random store/fetch/rise/clear history with binary and empty values against a reference map; 2000 hashed keys', enforce='cli_fetch', replace=['verif_strlen', 'to_time_t'], checks=NO_UWRAP, harness=r'''
     SYM_BUF(char, kb, kn1, BUF_CAP); __CPROVER_assume(kn1 >= 1 && kb[kn1 - 1] == 0); struct vstr key = { kb, kn1 - 1, 0 };
     SYM_BUF(char, rb, rn1, BUF_CAP); __CPROVER_assume(rn1 >= 1 && rb[rn1 - 1] == 0); g_reply_data.p = rb; g_reply_data.n = rn1 - 1; g_reply_data.src = 0;
     tcp_operation_header rh; g_reply_h = rh; size_t ti, sk; g_ti = ti; g_sk = sk; g_tr_count = 0; g_tx_calls = 0;
     struct vstr a; struct strset tg; int wi, fi; bool want = wi != 0, flag = fi != 0; /* canonical _Bool values */ time_t to; uint64_t gen;
     int r = cli_fetch(&key, &a, want ? &tg : 0, &to, &gen, flag); VERIF_REACH;'''),
-    dict(name='oip_fetch', props=P, replay='c10:loopback', replay_link=LINK, replay_exhaustive='a real server on 127.0.0.1, three real nodes (two with L1), a 600-step pseudo-random store/fetch/rise/clear history with binary and empty values against a reference map; 2000 hashed keys', enforce='oip_fetch', harness=r'''
+    dict(name='oip_fetch', props=P, replace=['l1_store'], replay='c10:loopback', replay_link=LINK, replay_exhaustive='two real servers on 127.0.0.1, three real nodes (two with L1), a 1500-step pseudo-random store/fetch/rise/clear history with binary and empty values against a reference map; 2000 hashed keys', enforce='oip_fetch', harness=r'''
     struct oip o; struct vstr key = {0, 0, 0}, a; struct strset tg; time_t to; uint64_t gen; int i1, i2, i3, i4, i5, i6; bool na = i1 != 0, nt = i2 != 0, nto = i3 != 0, ng = i4 != 0; o.has_l1 = i5 != 0;
     int res; g_tcp_res = res; g_l1_hit = i6 != 0; uint64_t lg, sg; g_l1_gen = lg; g_srv_gen = sg;
     char *p1 = malloc(1), *p2 = malloc(1); __CPROVER_assume(p1 && p2); g_l1_val.p = p1; g_srv_val.p = p2;
